@@ -157,8 +157,26 @@ where
 }
 
 fn max_position(min_shift: u8, depth: u8) -> io::Result<Position> {
-    assert!(min_shift > 0);
-    let n = (1 << (usize::from(min_shift) + 3 * usize::from(depth))) - 1;
+    use self::reference_sequence::Bin;
+
+    if min_shift == 0 {
+        return Err(io::Error::new(
+            io::ErrorKind::InvalidInput,
+            "invalid min shift",
+        ));
+    }
+
+    if depth > Bin::MAX_DEPTH {
+        return Err(io::Error::new(io::ErrorKind::InvalidInput, "invalid depth"));
+    }
+
+    let shift = u32::from(min_shift) + 3 * u32::from(depth);
+
+    let n = 1usize
+        .checked_shl(shift)
+        .map(|n| n - 1)
+        .ok_or_else(|| io::Error::new(io::ErrorKind::InvalidInput, "invalid min shift"))?;
+
     Position::try_from(n).map_err(|e| io::Error::new(io::ErrorKind::InvalidInput, e))
 }
 
